@@ -7,6 +7,7 @@ package dns
 
 import (
 	"fmt"
+	"net"
 	"strings"
 
 	"github.com/bokysan/socketace/v2/internal/util/enc"
@@ -171,7 +172,26 @@ func c13RunB(rec *vcommon.Rec, it *c13BItem) {
 			if reqEnc == "victim" {
 				up = c13Codec(it.Cfg.Up)
 			}
+			// three origins: the attacker's own session address, the victim's host with another port, another host with the victim's port
 			sh := c13Fire(x.comm, cmd, v.id, v.user, c13Keyed(attKey, int64(caseNo)*16, 12), rng, it.Cfg, up, c13Codec(it.Cfg.Down), secrets)
+			origin := "attacker-session-address"
+			if va, ok := v.addr.(*net.UDPAddr); ok {
+				for _, o := range []struct {
+					name string
+					addr net.Addr
+				}{
+					{"victim-host-other-port", &net.UDPAddr{IP: va.IP, Port: va.Port + 1}},
+					{"other-host-victim-port", &net.UDPAddr{IP: net.IPv4(10, 9, va.IP[len(va.IP)-2], va.IP[len(va.IP)-1]), Port: va.Port}},
+				} {
+					sh2 := c13Fire(newVClientComm(n.scomm, o.addr), cmd, v.id, v.user, c13Keyed(attKey, int64(caseNo)*16, 12), rng, it.Cfg, up, c13Codec(it.Cfg.Down), secrets)
+					rec.Stat("b_spoofed_requests_from:"+o.name, int64(len(sh2.results)))
+					if (c13Has(sh2.results, "ok") || sh2.leaked) && !(c13Has(sh.results, "ok") || sh.leaked) {
+						origin = o.name
+					}
+					sh.results = append(sh.results, sh2.results...)
+					sh.leaked = sh.leaked || sh2.leaked
+				}
+			}
 			snap1 := c13Snapshot(n.lst, v.user)
 			diff := c13Diff(snap0, snap1)
 			next := v.finish(2*int(it.Cfg.UpFrag) + 3)
@@ -203,7 +223,7 @@ func c13RunB(rec *vcommon.Rec, it *c13BItem) {
 			rec.Case(fmt.Sprintf("b/%s/%s/%d/%s/%s", it.Cfg, it.Phase, it.Fillers, cmd, reqEnc), len(sh.results) > 0 && v.bytes() > 0)
 			if len(problems) > 0 {
 				rec.Violation("spoof:"+cmd+":"+problems[0], desc, map[string]interface{}{"all_problems": problems, "answers": sh.results,
-					"victim_slot": v.id, "victim_address": v.addr.String(), "spoofer_address": x.addr.String(), "changed_fields": diff,
+					"victim_slot": v.id, "victim_address": v.addr.String(), "spoofer_address": x.addr.String(), "first_accepting_origin": origin, "changed_fields": diff,
 					"before": snap0, "after": snap1, "victim_next_transfer": next})
 			} else {
 				rec.Sample(map[string]interface{}{"scenario": "b", "command": cmd, "phase": it.Phase, "victim": it.Cfg, "answers": sh.results, "victim_bytes_verified_afterwards": v.bytes()})
